@@ -428,6 +428,15 @@ func (d *ledgerDriver) call(e BEvent, args map[string]interface{}) error {
 		f, _ := delegationtypes.ParseUndelegationRecordKey(key)
 		args["k"] = []interface{}{o, f.BlockHeight, f.LzNonce, txh}
 		return k.DelegationKeeper.DecrementUndelegationHoldCount(ctx, key)
+	case "SetHeight":
+		// the chain restarts from a genesis document that carries the present module state with another
+		// initial height (absolute height: worlds using this event run with blocksPer = 1)
+		h := e.big("h").Int64()
+		args["h"] = h
+		hd := ctx.BlockHeader()
+		hd.Height = h
+		d.ctx = ctx.WithBlockHeader(hd)
+		return nil
 	case "EndBlock":
 		k.DelegationKeeper.EndBlock(ctx, abci.RequestEndBlock{Height: ctx.BlockHeight()})
 		h := ctx.BlockHeader()
